@@ -4,6 +4,8 @@ import Model.RowsCrash
 import Model.Dispatch
 import Model.CrashValue
 import Model.PrepLife
+import Model.EventFlow
+import Model.ConnSetup
 import Driver.Util
 namespace Driver.C05
 open Util
@@ -150,7 +152,15 @@ def step (_ : Unit) (ws : List String) : Unit × String :=
                -- seq / seqinv <callers> <steps..>: Model/PrepLife.lean (prepared-statement cache life cycle)
                match PrepLife.answer ws with
                | some a => a
-               | none => "bad-op")
+               | none =>
+                 -- evt / evtinv <cfg> <rounds>: Model/EventFlow.lean (frames on stream -1, every Events configuration)
+                 match EventFlow.answer ws with
+                 | some a => a
+                 | none =>
+                   -- hs <auth> <ks> <kinds>: Model/ConnSetup.lean (connection set-up as a sequence of answers)
+                   match ConnSetup.answer ws with
+                   | some a => a
+                   | none => "bad-op")
 
 def init : Unit := ()
 end Driver.C05
